@@ -93,7 +93,7 @@ def check(toks, resp, mode, build):
     if op == "mul":
         spec = A.expected_mul(op, l, r, mode)
         wide = not in_i128(l[0] * r[0])
-    elif op == "div":
+    elif op in ("div", "cdiv"):
         spec = A.expected_div(op, l, r, mode)
         wide = r[0] != 0 and not in_i128(l[0] * P10[max(0, 18 + r[1] - l[1])])
     elif op == "mulr":
@@ -104,8 +104,8 @@ def check(toks, resp, mode, build):
         wide = r[0] != 0 and not in_i128(l[0] * P10[max(0, n + r[1] - l[1])])
     else:
         raise ValueError(op)
-    verdict = A.judge(spec, form, resp, False)
-    return verdict, "api.%s.%s" % (op, spec[0]), wide, A.spec_text(spec, False)
+    verdict = A.judge(spec, form, resp, op == "cdiv")
+    return verdict, "api.%s.%s" % (op, spec[0]), wide, A.spec_text(spec, op == "cdiv")
 
 
 def limb(rng):
